@@ -1,3 +1,3 @@
     requires !old(w).journal.locked,   // no self-deadlock
     ensures r is Ok ==> *final(w) == (World { journal: JournalG { locked: true, ..old(w).journal }, poison_checked: false, ..*old(w) }), // [C06:lock-acquired]
-            r is Err ==> *final(w) == *old(w),
+            r is Err ==> *final(w) == *old(w) && old(w).journal.mutex_poisoned,
